@@ -28,10 +28,10 @@ import (
 var (
 	clusterNames = []string{"a", "b", "c"}
 	aliasPool    = []string{"x", "Y", "z.Example"}
-	holds        = []string{"prepick", "preconnect", "headers", "stream"}
+	holds        = []string{"preauth", "prepick", "preconnect", "headers", "stream"}
 	kinds        = []string{"delete-cluster", "drop-endpoint", "replace-endpoints", "drop-alias", "disable-endpoint", "recreate-cluster",
 		"cycle-drop-endpoint", "cycle-delete-cluster", "disable-then-drop-endpoint", "drop-endpoint-dup"}
-	points = []string{"before", "prepick", "preconnect", "headers", "stream"}
+	points = []string{"before", "preauth", "prepick", "preconnect", "headers", "stream"}
 )
 
 func randCase(r *rand.Rand, s string) string {
@@ -62,6 +62,7 @@ type gen struct {
 	reqs   []*greq
 	rid    int
 	storms []int
+	fresh  bool // after the removal: credentials nobody has seen before, so that no auth cache can answer
 }
 
 func (g *gen) servers(min int) []Srv {
@@ -150,7 +151,27 @@ func (g *gen) hostOf(name string) string {
 
 func (g *gen) start(host, hold string) int {
 	g.rid++
-	g.ops = append(g.ops, Op{Op: "start", Rid: g.rid, Host: host, Hold: hold, Watch: g.r.Intn(2) == 0})
+	// credentials: a bearer token asks the TokenReview webhook, an impersonated user the SubjectAccessReview webhook
+	// (ClientFor -> PickOne -> an endpoint of the cluster) unless the gateway's caches are warm: a small pool of
+	// shared credentials (warm caches) and unique ones (cold)
+	tok, imp := "", ""
+	switch k := g.r.Intn(6); {
+	case g.fresh && k < 4:
+		tok = fmt.Sprintf("ct-u%d", g.rid)
+	case k < 2:
+		tok = fmt.Sprintf("ct-%d", g.r.Intn(3))
+	case k < 3:
+		tok = fmt.Sprintf("ct-u%d", g.rid)
+	}
+	switch k := g.r.Intn(6); {
+	case g.fresh && k < 3:
+		imp = fmt.Sprintf("bob-u%d", g.rid)
+	case k < 1:
+		imp = fmt.Sprintf("bob-%d", g.r.Intn(2))
+	case k < 2:
+		imp = fmt.Sprintf("bob-u%d", g.rid)
+	}
+	g.ops = append(g.ops, Op{Op: "start", Rid: g.rid, Host: host, Hold: hold, Watch: g.r.Intn(2) == 0, Token: tok, Imp: imp})
 	g.reqs = append(g.reqs, &greq{rid: g.rid, released: hold == "stream"})
 	return g.rid
 }
@@ -163,7 +184,12 @@ func (g *gen) storm(host string) {
 		delays = append(delays, g.r.Intn(2000))
 	}
 	base := 1000 + 100*len(g.storms)
-	g.ops = append(g.ops, Op{Op: "storm", Rid: base, Host: host, Delays: delays})
+	so := Op{Op: "storm", Rid: base, Host: host, Delays: delays}
+	if g.r.Intn(2) == 0 {
+		so.Token = fmt.Sprintf("st%d", base)
+		so.Imp = fmt.Sprintf("eve%d", base)
+	}
+	g.ops = append(g.ops, so)
 	for i := 0; i < n; i++ {
 		g.storms = append(g.storms, base+i)
 		g.reqs = append(g.reqs, &greq{rid: base + i, released: true})
@@ -343,6 +369,7 @@ func template(r *rand.Rand, kind, point string) Case {
 		}
 	}
 	// the removal
+	g.fresh = true
 	switch kind {
 	case "delete-cluster", "cycle-delete-cluster":
 		g.del(A)
